@@ -471,7 +471,9 @@ class Ctx:
     cur: "Ctx | None" = None
 
     def __init__(self, decisions=(), unit_name="", opts=None):
-        self.unit_name = unit_name
+        from . import arrays as _arrays
+        _arrays._bv_counter[0] = 0      # deterministic bound-variable names per path: solver behaviour must not depend
+        self.unit_name = unit_name      # on which units ran earlier in the same worker process
         self.opts = opts or {}
         self.solver = z3.Solver()
         self.solver.set("timeout", FEAS_TIMEOUT_MS)
@@ -538,7 +540,13 @@ class Ctx:
 
     def _feasible(self, cond):
         if has_quantifier(cond):
-            r = self.solver.check(cond)
+            # quantified branch condition (np.any / np.all / array_equal): satisfiability with quantifiers is rarely
+            # decided quickly, refutation usually is; a short budget keeps exploration fast (unknown = feasible)
+            self.solver.set("timeout", 300)
+            try:
+                r = self.solver.check(cond)
+            finally:
+                self.solver.set("timeout", FEAS_TIMEOUT_MS)
         else:
             r = self.fsolver.check(cond)
         return r != z3.unsat  # unknown counts as feasible (only adds obligations)
@@ -633,8 +641,8 @@ _HQ = {}
 def has_quantifier(term):
     k = term.get_id()
     v = _HQ.get(k)
-    if v is not None:
-        return v
+    if v is not None and v[0].eq(term):
+        return v[1]
     seen, stack, found = set(), [term], False
     while stack:
         e = stack.pop()
@@ -646,9 +654,9 @@ def has_quantifier(term):
             found = True
             break
         stack.extend(e.children())
-    if len(_HQ) > 200000:
+    if len(_HQ) > 50000:
         _HQ.clear()
-    _HQ[k] = found
+    _HQ[k] = (term, found)     # keeping the term alive keeps its id from being recycled
     return found
 
 
